@@ -356,7 +356,7 @@ PLAN = {
     'C02': [c02_rf8, c02_rf23, c02_rf7a, c02_rf26, c02_rf9],
     'C20': [c20_rf8, c20_rf6, c20_rf21, c20_rf7h],
     'C15': [c15_rf17, c15_rf16h, c15_rf7b, c15_rf19],
-    'C18': [c18_rf5],
+    'C18': [c18_rf5, c17_rf4],
     'C17': [c17_rf1, c17_rf2, c17_rf3, c17_rf4],
 }
 
